@@ -292,7 +292,7 @@ Definition r_list (p : proto) : rd (Z * Z) := fun b =>
   | PBinary =>
       tlet (t, r) <- r_byte b in
       tlet (n, r) <- dont_expect_eof (r_i32 PBinary r) in
-      TOk ((n, s8 t), r)
+      if n <? 0 then TErr EOther else TOk ((n, s8 t), r)                       (* binary.go ReadList: negative size *)
   | PCompact =>
       tlet (x, r) <- r_byte b in
       if negb (Z.shiftr x 4 =? 15) then TOk ((Z.shiftr x 4, Z.land x 15), r)
@@ -304,7 +304,7 @@ Definition r_map (p : proto) : rd (Z * Z * Z) := fun b =>
       tlet (k, r) <- r_byte b in
       tlet (v, r) <- dont_expect_eof (r_byte r) in
       tlet (n, r) <- dont_expect_eof (r_i32 PBinary r) in
-      TOk ((n, s8 k, s8 v), r)
+      if n <? 0 then TErr EOther else TOk ((n, s8 k, s8 v), r)                 (* binary.go ReadMap: negative size *)
   | PCompact =>
       tlet (n, r) <- r_uvarint (2 ^ 31 - 1) b in
       if n =? 0 then TOk ((0, 0, 0), r)
